@@ -17,7 +17,7 @@ and single-action entries yield the constant 1.0; (4) as_named builds iterator k
 table, probabilities and single-action table of player k, at array position k; (5) layout agreement
 of the export walk: the actions of infoset X are zipped with the first num_actions(X) probabilities
 and both cursors advance to the remainders. The import side of the layout is decided under C14.
-Not decided: equality "up to rounding in the last place" of the round trip.
+split.rs hands the dense vector's chunks out front to back (both `next` implementations: item = first `len` elements of the rest, remainder kept). Not decided: equality "up to rounding in the last place" of the round trip.
 """
 ASSUMPTIONS = ['slice::split_first / split_at / Iterator::find / zip have their documented std semantics',
                'uniqueness of infoset keys across the two tables is C11.cross-table']
@@ -39,6 +39,8 @@ def _tags_unused(e):
 
 def run(ctx):
     lib = ctx.lib
+    import splits
+    splits.front_to_back(ctx, 'C13')
     # (1) E7
     rule = 'C13.exact-size'
     n_impl = 0
